@@ -81,6 +81,9 @@ type contractDB struct {
 	frozen     map[string]bool // Struct.field holding a map whose contents never change once stored
 	frozenType map[string]bool // named map types whose values never change once converted
 	neverClosed map[string]bool // Struct.field channels that no code in /repo closes (receives never see "closed")
+	nonnilGlobal map[string]bool // package-level variables initialised once with a non-nil value and never reassigned
+	owners      map[string][]string // owner function -> fields (Struct.field) only it (and its callees) may touch
+	nonblocking map[string]bool     // Struct.field / func:local channels that may only be sent on inside a select with default
 }
 
 var clauseKeywords = map[string]bool{
@@ -92,7 +95,7 @@ var clauseKeywords = map[string]bool{
 var blockRe = regexp.MustCompile(`(?s)/\*@(.*?)@\*/`)
 
 func loadContracts(files []string) (*contractDB, error) {
-	db := &contractDB{theories: map[string]*block{}, funcs: map[string]*block{}, ifaces: map[string]*block{}, chaninv: map[string]*block{}, lemmas: map[string]*block{}, immutable: map[string]bool{}, frozen: map[string]bool{}, frozenType: map[string]bool{}, neverClosed: map[string]bool{}}
+	db := &contractDB{theories: map[string]*block{}, funcs: map[string]*block{}, ifaces: map[string]*block{}, chaninv: map[string]*block{}, lemmas: map[string]*block{}, immutable: map[string]bool{}, frozen: map[string]bool{}, frozenType: map[string]bool{}, neverClosed: map[string]bool{}, nonnilGlobal: map[string]bool{}, owners: map[string][]string{}, nonblocking: map[string]bool{}}
 	sort.Strings(files)
 	for _, f := range files {
 		data, err := os.ReadFile(f)
@@ -151,6 +154,19 @@ func (db *contractDB) add(b *block) error {
 		for _, g := range b.globs {
 			db.neverClosed[g] = true
 		}
+	case "nonnil-global":
+		for _, g := range b.globs {
+			db.nonnilGlobal[g] = true
+		}
+	case "nonblocking-send":
+		for _, g := range b.globs {
+			db.nonblocking[g] = true
+		}
+	case "owner":
+		if len(b.globs) < 2 {
+			return fmt.Errorf("owner block: expected '<owner function> <Struct.field>...'")
+		}
+		db.owners[b.globs[0]] = append(db.owners[b.globs[0]], b.globs[1:]...)
 	case "opaque":
 		for _, g := range b.globs {
 			db.opaque = append(db.opaque, g)
@@ -193,7 +209,7 @@ func parseBlock(body, file string, line int) (*block, error) {
 			return nil, fmt.Errorf("expected 'assumed func <name>'")
 		}
 		b.kind, b.name = "assumed", strings.Join(hdr[2:], " ")
-	case "opaque", "immutable", "frozen", "frozen-type", "neverclosed":
+	case "opaque", "immutable", "frozen", "frozen-type", "neverclosed", "nonnil-global", "owner", "nonblocking-send":
 		b.kind = hdr[0]
 		b.globs = hdr[1:]
 		for _, l := range lines[hi+1:] {
@@ -366,7 +382,8 @@ func (b *block) addClause(kw, text string, line int) error {
 			return fmt.Errorf("expected 'at <anchor> assert|assume|set ...'")
 		}
 		anchor, verb := fs[0], fs[1]
-		rest := strings.TrimSpace(text[strings.Index(text, verb)+len(verb):])
+		afterAnchor := strings.TrimSpace(strings.TrimPrefix(strings.TrimSpace(text), anchor))
+		rest := strings.TrimSpace(strings.TrimPrefix(afterAnchor, verb))
 		switch verb {
 		case "assert", "assume":
 			c, err := mk("at-"+verb, rest)
